@@ -114,6 +114,22 @@ pub(super) fn sym_vec(n: usize, f: fn() -> Float) -> Vec<Float> {
     v
 }
 
+/// long vectors: symbolic at the first, middle and last position, concrete small integers elsewhere
+/// (keeps SAT cost flat while every position still contributes to sums / copies)
+pub(super) fn sym_vec_sparse(n: usize, f: fn() -> Float) -> Vec<Float> {
+    let mut v = Vec::with_capacity(n);
+    let mut i = 0;
+    while i < n {
+        if i == 0 || i == n / 2 || i + 1 == n {
+            v.push(f());
+        } else {
+            v.push(((i % 3) + 1) as Float);
+        }
+        i += 1;
+    }
+    v
+}
+
 // ---------------------------------------------------------------- oracle helpers (spec side)
 pub(super) fn numel(dims: &[usize]) -> usize {
     let mut p = 1;
